@@ -718,9 +718,37 @@ def b8(ctx, F, nodes, parts=("bound", "best"), rule="C09.B8"):
                     break
             if scope is None:
                 continue
+            # names the value travels under: `let mut score = { ..; let score'1 = -search(..)?; Some(score'1) }?` (an expanded helper)
+            names_r = {r}
+            grew = True
+            while grew:
+                grew = False
+                for n_, anc_ in hir.walk(nd.body):
+                    tgt_ = None
+                    if n_.get("k") == "SLet" and n_["pat"].get("k") == "PBind" and n_.get("init") is not None:
+                        tgt_, src_ = n_["pat"]["name"], n_["init"]
+                    elif n_.get("k") == "Assign" and hir.strip(n_["l"]).get("k") == "Path" and hir.strip(n_["l"])["to"].get("res") == "local":
+                        tgt_, src_ = hir.strip(n_["l"])["to"]["name"], n_["r"]
+                    if tgt_ is None or tgt_ in names_r or tgt_ in (low, "best_score", "best_move", "beta"):
+                        continue
+                    if any(x_.get("k") == "Path" and (x_.get("to") or {}).get("name") in names_r for x_, _ in hir.walk(src_)) and \
+                            not any(x_.get("k") == "Call" and hir.callee_of(x_) in SEARCHERS and x_ is not c["node"] for x_, _ in hir.walk(src_)):
+                        names_r.add(tgt_)
+                        grew = True
+                        # the value now lives in the scope of that name
+                        blocks_ = [a_ for a_ in anc_ if a_.get("k") in ("Block", "Loop")]
+                        outer = blocks_[-1] if blocks_ else None
+                        if n_.get("k") == "Assign":
+                            # an assigned variable lives where it was declared
+                            for b_ in blocks_:
+                                if any(st_.get("k") == "SLet" and st_["pat"].get("k") == "PBind" and st_["pat"].get("name") == tgt_
+                                       for st_ in (b_.get("stmts") or [])):
+                                    outer = b_
+                        if outer is not None and any(x is scope for x, _ in hir.walk(outer)):
+                            scope = outer
             in_scope = {id(x) for x, _ in hir.walk(scope)}
             assigns_r = [(t, v, n, anc) for t, v, n, anc in assigns if id(n) in in_scope]
-            uses = lambda v: hir.contains(v, ("var", r))
+            uses = lambda v: any(hir.contains(v, ("var", nm_)) for nm_ in names_r)
             raised = any(t == low and uses(v) for t, v, _, _ in assigns_r)
             key = "%s:%s#%d" % (short, SHORT[c["callee"]], i)
             if "bound" in parts:
